@@ -394,8 +394,8 @@ def fam_naming(d):
 
 
 def fam_constants(d):
-    s = d.pick(["some/long/path/constant", "another fairly long literal", "k"])
-    n = d.int(2, 6)
+    s = d.pick(["some/long/path/constant", "another fairly long literal", "k", "12345 starts with digits and is long", (10, 20, 30, 40, 50, 60, 70), [1.5, 2.5, 3.5, 4.5, 5.5, 6.5]])
+    n = d.int(2, 7)
     lines = [f"v{i} = {s!r}" for i in range(n)] + ["print(" + ", ".join(f"v{i}" for i in range(n)) + ")"]
     if d.chance(2):
         return "def f():\n" + "".join(f"    {l}\n" for l in lines) + "f()\n"
